@@ -309,6 +309,7 @@ type c16Case struct {
 }
 
 func c16Run(e *core.Env) {
+	e.ReserveTail()
 	drv := e.Driver()
 	d3 := []string{"2020-01-30", "2020-02-29", "2020-03-31"}
 	type plan struct {
@@ -368,6 +369,7 @@ func c16Run(e *core.Env) {
 		})
 		e.SetBound(fmt.Sprintf("journal_depth_alphabet%d", len(pl.alpha)), pl.n)
 	}
+	e.BeginTail()
 	// position life histories (see positionChains)
 	chainN := core.Pick(e, 4, 6)
 	e.Note("position chains: 7 step kinds, <= %d steps on consecutive days, valuation in {CHF, USD}", chainN)
